@@ -656,6 +656,28 @@ def _shape_of_format(df):
     return ("item", df.__name__)
 
 
+_PROTO = {}
+
+
+def _hsms_header_for(inst):
+    """(stream, function, W-bit) of the frame the HSMS protocol builds for a function instance (decoded by ref.e37)."""
+    from vf.ref import e37
+
+    if "p" not in _PROTO:
+        import secsgem.hsms
+
+        _PROTO["p"] = secsgem.hsms.HsmsProtocol(secsgem.hsms.HsmsSettings())
+    try:
+        msg = _PROTO["p"]._create_message_for_function(inst, 0x01020304)
+        raw = msg.blocks[0].encode()
+    except Exception:
+        return None  # functions whose default body cannot be encoded (unset Dynamic items): flags are checked above
+    fr, rest = e37.parse(raw)
+    if len(fr) != 1 or rest:
+        return ("unparsable", raw[:20].hex(), None)
+    return (fr[0]["stream"], fr[0]["function"], bool(fr[0]["w"]))
+
+
 def scan_catalogue(ctx=None):
     """All catalogue inconsistencies as Failures (bucket names the entry and the rule)."""
     import secsgem.secs.data_items as di
@@ -699,6 +721,20 @@ def scan_catalogue(ctx=None):
         for attr, key in flag_names:
             if getattr(c, attr) is not getattr(fn, key):
                 bad(f"flag:{fn.name}:{attr}", f"class {attr}={getattr(c, attr)!r}", f"functions.yaml {key}={getattr(fn, key)!r}")
+        # the flags an INSTANCE reports (these are what the protocols copy into the header, e.g. the W-bit) and the
+        # header the HSMS layer builds for it (added after a seeded change that copied the wrong class flag)
+        try:
+            inst = c()
+            for attr, key in (("to_host", "to_host"), ("to_equipment", "to_equipment"), ("has_reply", "reply"), ("is_reply_required", "reply_required"), ("is_multi_block", "multi_block")):
+                if getattr(inst, attr) is not getattr(fn, key):
+                    bad(f"instance-flag:{fn.name}:{attr}", f"instance {attr}={getattr(inst, attr)!r}", f"functions.yaml {key}={getattr(fn, key)!r}")
+            if (inst.stream, inst.function) != sf:
+                bad(f"instance-sf:{fn.name}", (inst.stream, inst.function), sf)
+            hdr = _hsms_header_for(inst)
+            if hdr is not None and hdr != (sf[0], sf[1], bool(fn.reply_required)):
+                bad(f"wire-header:{fn.name}", f"(stream, function, W) = {hdr}", (sf[0], sf[1], bool(fn.reply_required)))
+        except Exception as exc:  # a function that cannot be instantiated without a value
+            bad(f"instantiate:{fn.name}", repr(exc), "default-constructible function")
         try:
             cshape = _shape_of_format(c._data_format)
         except cat.CatalogueError as exc:
